@@ -21,19 +21,22 @@ Range(q) == {q[i] : i \in 1..Len(q)}
 RECURSIVE Norm(_)
 Norm(j) == [k |-> j.k, c |-> {Norm(x) : x \in Range(j.c)}]
 Init == t \in 1..NT /\ l = 1 /\ bad = "" /\ v = 0 /\ s = ""
-PosCheck(x, exp) ==
-    LET badpos == {i \in 1..Len(x.pos) :
-                     \/ (exp = Sr!Err /\ x.pos[i].out # "err")
-                     \/ (exp # Sr!Err /\ (x.pos[i].out # "ok" \/ Norm(x.pos[i].shape) # exp))} IN
+\* expN: what is expected one container level down inside an argument (marshal converts foreign objects only at the top)
+PosCheck(x, exp0, expN) ==
+    LET Exp(i) == IF x.pos[i].name = "nested" THEN expN ELSE exp0
+        badpos == {i \in 1..Len(x.pos) :
+                     \/ (Exp(i) = Sr!Err /\ x.pos[i].out # "err")
+                     \/ (Exp(i) # Sr!Err /\ (x.pos[i].out # "ok" \/ Norm(x.pos[i].shape) # Exp(i)))} IN
     IF badpos = {} THEN ""
-    ELSE LET i == CHOOSE j \in badpos : \A m \in badpos : j <= m IN
+    ELSE LET i == CHOOSE j \in badpos : \A m \in badpos : j <= m
+             exp == Exp(i) IN
          IF exp = Sr!Err THEN "C01.RefusedTypeAccepted." \o x.pos[i].name
          ELSE IF x.pos[i].out # "ok" THEN "C01.SupportedValueRefused." \o x.pos[i].name
          ELSE "C01.MappingDiffers." \o x.pos[i].name
 Check(x) ==
     LET sent == Norm(x.v)
         exp == Sr!Map(x.ser, sent)
-        pc == PosCheck(x, exp) IN
+        pc == PosCheck(x, exp, Sr!MapAt(x.ser, sent, FALSE, 1)) IN
     IF x.hang THEN "C01.Hang"
     ELSE IF ~x.sym THEN "C01.ArgumentsAndResultsMappedDifferently"
     ELSE IF pc # "" THEN pc
